@@ -987,6 +987,20 @@ _NOVEL_CALLS = {"next", "any", "all", "divmod", "map", "filter", "iter", "partia
 _NOVEL_METHODS = {"to_bytes", "from_bytes", "fromkeys"}
 
 
+def _pieces(f: ast.AST) -> list[str]:
+    out = []
+    for n in ast.walk(f):
+        if isinstance(n, (ast.Assign, ast.AugAssign, ast.AnnAssign, ast.Expr, ast.Return, ast.Raise)):
+            if isinstance(n, ast.Expr) and isinstance(n.value, ast.Constant):
+                continue
+            out.append(unparse(n))
+        elif isinstance(n, (ast.If, ast.While)):
+            out.append(unparse(n.test))
+        elif isinstance(n, ast.For):
+            out.append(unparse(n.target) + " in " + unparse(n.iter))
+    return out
+
+
 def _syntax_kinds(fn: ast.AST) -> set[str]:
     """the kinds of construct in a function that the rule extractors treat specially: expression forms and helper calls"""
     out: set[str] = set()
@@ -1312,6 +1326,26 @@ def normalize_repo(repo: Repo) -> dict[str, object]:
             if extra:
                 novel[fn.qualname] = extra
     repo.novel_syntax = novel  # type: ignore[attr-defined]
+    # ---- how much of each known function is still the confirmed function: the share of its simple statements and tests (texts, after the
+    # respelling above) that the confirmed version also has
+    sim: dict[str, float] = {}
+    dist: dict[str, int] = {}
+    for mi in repo.modules.values():
+        known = census.get(mi.name)
+        if known is None:
+            continue
+        for fn in list(mi.functions.values()) + [m for c in mi.classes.values() for m in c.methods.values()]:
+            src = known.get("source", {}).get(fn.qualname)
+            if src is None:
+                continue
+            ref_p = _pieces(ast.parse(src).body[0])
+            cur_p = _pieces(fn.node)
+            if ref_p and cur_p and cur_p != ref_p:
+                common = sum(min(cur_p.count(x), ref_p.count(x)) for x in set(cur_p))
+                sim[fn.qualname] = common / max(len(cur_p), len(ref_p))
+                dist[fn.qualname] = len(cur_p) + len(ref_p) - 2 * common
+    repo.rewrite_similarity = sim  # type: ignore[attr-defined]
+    repo.rewrite_distance = dist  # type: ignore[attr-defined]
     if novel:
         report["novel_syntax"] = [f"{k}: {', '.join(sorted(v))}" for k, v in sorted(novel.items())]
     # ---- inside an arm guarded by `X == <literal>` the expression X is that literal (after helpers have been folded in: an arm that forwards
